@@ -362,6 +362,11 @@ func (fv *FV) applyContract(st *State, call *ast.CallExpr, fc *FuncContract, sel
 			continue
 		}
 		cur := fv.readPath(st, p, true)
+		if rp := fv.resolveAlias(st, p); rp.Ghost == "" && len(rp.Steps) == 0 && (cur.Sort.Kind == KMap || cur.Sort.Kind == KPtr) {
+			if at, ok := st.escaped[rp.Root]; ok {
+				fv.assert(st, "alias-mutation", tBool(false), call.Pos(), "the object held by "+rp.Root.Name()+" was stored elsewhere at "+fv.posStr(at)+" and is mutated by "+fc.Name+" afterwards")
+			}
+		}
 		switch {
 		case cur.Sort == nv.Sort:
 			fv.writePath(st, p, nv, call.Pos())
